@@ -172,6 +172,15 @@ add("C09",
     "Feasibility slack 1e-4 capture units, optimality 1e-4 relative. Batched behaviour is C05's.",
     "Coq weak-duality certificate checker with cone + linear rows (proved sound) + formulation theorems", "DESIGN.md §5 C09, §3.2")
 
+add("C10",
+    "(F) target = neutral part + offset with zero total; a stacked constraint row acts only on its own sample's intensities and the two common scales; column sums give the total "
+    "capture; with zero deltas the scales (1,1) are feasible for a sample exactly when its target is reproduced. (C) weak-duality theorem: a passing verdict means no feasible "
+    "(intensities, scales) of the formulation model has a better objective ('unity' distance to (1,1) / 'max' weighted sum). Verdict (bounds, both constraint groups within the "
+    "deltas, positive scales, prediction, optimality) evaluated in the Coq VM on every ReceptorEstimator.fit_adaptive result.",
+    TRUST + "Solver opaque (CLARABEL passed explicitly: the default ECOS is not installed here — recorded per run in the evidence as an environment fact, not a violation). "
+    "Dual multipliers from HiGHS (untrusted). Instances where no feasible (X, scales) exists are outside the property's premise and skipped (feasibility decided by an LP).",
+    "Coq weak-duality certificate checker (linear rows, unbounded scale variables) + formulation lemmas", "DESIGN.md §5 C10, §3.2")
+
 NOT_APPLICABLE = []
 ALL = ["C%02d" % i for i in range(1, 21)]
 
